@@ -10,6 +10,21 @@ from .loader import AnalysisError
 from .minieval import Evaluator, Unsupported, Raised, MODKEY
 
 
+import itertools as _it
+import re as _re
+
+# pure functions of the standard library that the interpreted code may call (by dotted name as written with `import m`)
+STDLIB_CALLS = {
+    "itertools.chain.from_iterable": lambda it: list(_it.chain.from_iterable(it)),
+    "itertools.permutations": lambda *a: list(_it.permutations(*a)),
+    "itertools.takewhile": lambda f, it: list(_it.takewhile(f, it)), "itertools.dropwhile": lambda f, it: list(_it.dropwhile(f, it)),
+    "itertools.chain": lambda *its: list(_it.chain(*its)), "itertools.zip_longest": lambda *a, **k: list(_it.zip_longest(*a, **k)),
+    "itertools.product": lambda *a, **k: list(_it.product(*a, **k)),
+    "re.fullmatch": _re.fullmatch, "re.match": _re.match, "re.search": _re.search, "re.sub": _re.sub, "re.escape": _re.escape, "re.findall": _re.findall,
+}
+STDLIB_MODELS = {"itertools": {MODKEY: "itertools", "chain": {MODKEY: "itertools.chain"}}, "re": {MODKEY: "re"}}
+
+
 class ModuleInterp:
     def __init__(self, ctx, obj_types=(), extern=None, max_steps=200000):
         self.ctx = ctx
@@ -43,6 +58,8 @@ class ModuleInterp:
         for local, imp in self.ctx.r.imports.get(modname, {}).items():
             if imp[0] == "module" and imp[1] in self.ctx.p.modules and "." not in local:
                 env.setdefault(local, {MODKEY: imp[1]})
+            elif imp[0] == "module" and imp[1] in STDLIB_MODELS and "." not in local:
+                env.setdefault(local, STDLIB_MODELS[imp[1]])
             elif imp[0] == "symbol" and imp[1] in self.ctx.p.modules and local not in env:
                 # `from m import v`: the importing module gets the value v had when the import ran — the module-level initial
                 # value, not what a later setter in m assigns (that is exactly what Python does)
@@ -69,6 +86,11 @@ class ModuleInterp:
         def hook(name, args, kwargs):
             if name in self.extern:
                 return self.extern[name](*args, **kwargs)
+            if name in STDLIB_CALLS:
+                try:
+                    return STDLIB_CALLS[name](*args, **kwargs)
+                except (ValueError, TypeError) as ex:
+                    raise Raised(type(ex).__name__)
             # module-qualified call  "<module>.<func>"
             if "." in name:
                 m, fn = name.rsplit(".", 1)
@@ -85,6 +107,11 @@ class ModuleInterp:
             kind, qual = self.ctx.r.resolve_name(modname, name)
             if kind == "func" and qual in self.ctx.p.functions:
                 return self.call(self.ctx.p.functions[qual], *args, **kwargs)
+            if kind == "external" and qual in STDLIB_CALLS:
+                try:
+                    return STDLIB_CALLS[qual](*args, **kwargs)
+                except (ValueError, TypeError) as ex:
+                    raise Raised(type(ex).__name__)
             raise Unsupported(f"call {name} in {modname}")
         return hook
 
